@@ -65,10 +65,12 @@ func VerifC17Gov() {
 	n := rt.IntRange("nlogs", 1, 2)
 	receipt := &ethtypes.Receipt{}
 	nFrom := 0
+	fromContract := make([]bool, n)
 	for i := 0; i < n; i++ {
 		l := &ethtypes.Log{Data: rt.Bytes("logdata")}
 		if rt.Bool("from-gov-contract") {
 			nFrom++
+			fromContract[i] = true
 			l.Address = common.HexToAddress(syscontracts.GovContractAddress)
 		} else {
 			l.Address = common.BytesToAddress(rt.BytesN("otheraddr", 20))
@@ -95,6 +97,18 @@ func VerifC17Gov() {
 			rt.Reach("vote-failed")
 			rt.Assert("D3-failed-vote-fails-transaction", err != nil && i == len(routedOK)-1)
 		}
+	}
+	if err == nil {
+		handled := 0
+		for i, l := range receipt.Logs {
+			if _, ok := h.handlers[l.Topics[0]]; ok && fromContract[i] {
+				handled++
+			}
+		}
+		if handled == 2 {
+			rt.Reach("two-handled-events")
+		}
+		rt.Assert("D2-every-handled-event-executed-once", len(routed) == handled)
 	}
 	iv, iw := 0, 0
 	_ = order
